@@ -209,6 +209,16 @@ ADD4 = {
  "C15": " Round 4: CE-VALIDDICT (also through ValidHeader when the predicate is folded into it).",
  "C17": " Round 4: WR-ENCDICT.",
 }
+ADD5 = {
+ "C03": " Round 5: WR-READFROM.",
+ "C04": " Round 5: SEQ-BLOCKEND.",
+ "C05": " Round 5: SEQ-BLOCKEND, WR-READFROM.",
+ "C13": " Round 5: SEQ-BLOCKEND, WR-READFROM.",
+ "C14": " Round 5: GL-GLOBAL no longer skips methods named init.",
+ "C16": " Round 5: EF-EOF over the LZMA2 reader, decoder dictionary window guards, WR-READFROM.",
+}
+for pid, text in ADD5.items():
+    ADD4[pid] = ADD4.get(pid, "") + text
 for pid, text in ADD4.items():
     tech, t0 = ADD[pid]
     ADD[pid] = (tech, t0 + text)
